@@ -41,7 +41,9 @@ Txs == <<
   T("t9", "script", <<Coin("g2", 0, "o1", 11)>>, <<Change("o1")>>, <<>>, "ret", 1, "", 0),
   T("t10", "script", <<Coin("g3", 0, "o2", 10), Con("c1")>>,
        <<Change("o2"), Out("contract", "", 0, 1), Out("variable", "", 0, 0)>>,
-       <<Call("c1", 2, 9, 1), Op("tro", "", 0, 0, 0, 2, 1, "o1"), Op("callrvrt", "c1", 1, 8, 0, 0, 0, "")>>, "ret", 0 - 1, "", 1)
+       <<Call("c1", 2, 9, 1), Op("tro", "", 0, 0, 0, 2, 1, "o1"), Op("callrvrt", "c1", 1, 8, 0, 0, 0, "")>>, "ret", 0 - 1, "", 1),
+  \* valid, but its id is among the processed ids preserved by regenesis
+  T("t11", "script", <<Coin("g2", 0, "o1", 10)>>, <<Change("o2")>>, <<>>, "ret", 0 - 1, "", 0)
 >>
 
 REv(k, id, o, am, data, valid) == [k |-> k, id |-> id, o |-> o, am |-> am, data |-> data, valid |-> valid]
@@ -55,7 +57,7 @@ Cfg1 ==
    relayer |-> << <<REv("msg", "m3", "o2", 4, FALSE, TRUE)>>,
                   <<REv("tx", "t6", "", 0, FALSE, TRUE), REv("tx", "bad1", "", 0, FALSE, FALSE)>> >>,
    txs |-> Txs,
-   processed0 |-> <<"t8">>,
+   processed0 |-> <<"t8", "t11">>,
    gasLimit |-> 4, sizeLimit |-> 3, maxTx |-> 100,
    roots |-> <<[p |-> 0, d |-> 0, root |-> "r00"], [p |-> 0, d |-> 1, root |-> "r01"], [p |-> 0, d |-> 2, root |-> "r02"],
                [p |-> 1, d |-> 1, root |-> "r11"], [p |-> 1, d |-> 2, root |-> "r12"], [p |-> 2, d |-> 2, root |-> "r22"]>>,
